@@ -311,6 +311,21 @@ def body_dataset(ctx, kind):
         nx_[which % 4, (which + 1) % 5] = numpy.nan
         ny_[which % 4, (which + 1) % 5] = numpy.nan
         ds = builders.shoc_standard(3, 4, node_x=nx_, node_y=ny_, face_x=numpy.zeros((3, 4)), face_y=numpy.zeros((3, 4)))
+    elif kind in ('sparse8', 'sparse16'):
+        # mostly land: few triangles, but the wet cells sit at linear indexes beyond 2^8 (2^16) - the cell index of a
+        # triangle must not be stored in a type sized for the triangle count
+        ny, nx = (2, 130 + which) if kind == 'sparse8' else (2, 32770 + which)
+        jj, ii = numpy.meshgrid(numpy.arange(ny, dtype=float), numpy.arange(nx, dtype=float), indexing='ij')
+        lat, lon = 10.0 + jj, 100.0 + ii * 0.001
+        off = [(-1, -1), (1, -1), (1, 1), (-1, 1)]
+        lonb = numpy.stack([lon + a * 0.0005 for a, b in off], axis=-1)
+        latb = numpy.stack([lat + b * 0.5 for a, b in off], axis=-1)
+        wet = numpy.zeros((ny, nx), dtype=bool)
+        wet[1, nx - 3 - which:] = True
+        wet[0, 1] = True
+        lonb[~wet] = numpy.nan
+        latb[~wet] = numpy.nan
+        ds = builders.cf2d(ny, nx, lat=lat, lon=lon, lat_bounds=latb, lon_bounds=lonb)
     else:
         ds = builders.cf1d(2 + which % 2, 3)
     polygons = ds.ems.polygons
@@ -321,8 +336,11 @@ def body_dataset(ctx, kind):
     ctx.check(bool(((triangles >= 0) & (triangles < len(vertices))).all()), 'every vertex index is valid')
     ctx.check(all(0 <= int(f) < len(polygons) and polygons[int(f)] is not None for f in faces_of),
               'every triangle names the linear index of a cell that has geometry')
+    by_face = {}
+    for t, f in zip(triangles, faces_of):
+        by_face.setdefault(int(f), []).append(t)
     for n, poly in enumerate(polygons):
-        mine = [t for t, f in zip(triangles, faces_of) if int(f) == n]
+        mine = by_face.get(n, [])
         if poly is None:
             ctx.check(not mine, 'cells without geometry produce no triangles')
             continue
@@ -358,7 +376,7 @@ def cases(tier):
         for reverse in (False, True):
             yield Case(f'ears:n{n}:{"rev" if reverse else "fwd"}', body_ears, dict(n=n, reverse=reverse), patches=_tri_patches,
                        max_paths=50000, split=16)
-    for kind in ('mesh', 'cf2d', 'shoc_standard', 'cf1d'):
+    for kind in ('mesh', 'cf2d', 'shoc_standard', 'cf1d', 'sparse8') + (() if q else ('sparse16',)):
         yield Case(f'dataset:{kind}', body_dataset, dict(kind=kind), max_paths=20)
 
 
